@@ -641,10 +641,13 @@ func (cr *cliRun) runSet(results []gen.ResultSpec, splits [][][]int, assignments
 	s := cr.s
 	ref := reference(results)
 	rs := make([]vegeta.Result, len(results))
-	bySeq := map[uint64]int{}
+	bySeq := map[string]int{} // identity of a record inside a set: sequence number, attack name and URL
 	for i, sp := range results {
 		rs[i] = sp.ToResult()
-		bySeq[sp.Seq] = i
+		if _, dup := bySeq[recKey(&rs[i])]; dup {
+			panic("generator: two records of a set with the same (seq, attack, url)")
+		}
+		bySeq[recKey(&rs[i])] = i
 	}
 	cr.dir = filepath.Join(cr.c.Work, fmt.Sprintf("set%d", cr.nfile))
 	cr.nfile++
@@ -1146,7 +1149,9 @@ func histCounts(raw []byte) string {
 
 // checkEncoded: the output of `encode` holds the same multiset of records, each file's records in
 // file order; and its exact order is what the model's drain yields.
-func (cr *cliRun) checkEncoded(p pending, raw []byte, rs []vegeta.Result, bySeq map[uint64]int) {
+func recKey(r *vegeta.Result) string { return fmt.Sprintf("%d|%s|%s", r.Seq, r.Attack, r.URL) }
+
+func (cr *cliRun) checkEncoded(p pending, raw []byte, rs []vegeta.Result, bySeq map[string]int) {
 	s := cr.s
 	dec := decoderOf(p.cc.To, bytes.NewReader(raw))
 	var got []vegeta.Result
@@ -1175,7 +1180,7 @@ func (cr *cliRun) checkEncoded(p pending, raw []byte, rs []vegeta.Result, bySeq 
 	toks := make([]string, 0, len(got))
 	okAll := true
 	for _, r := range got {
-		i, ok := bySeq[r.Seq]
+		i, ok := bySeq[recKey(&r)]
 		if !ok || !rs[i].Equal(r) {
 			okAll = false
 			s.Violate(kit.Violation{Kind: "encode_record_altered", What: "encode produced a record that is not in the input set", Input: p.cc, Observed: fmt.Sprintf("%+v", r)})
@@ -1430,6 +1435,47 @@ func runC13(c *run.Ctx, s *kit.Summary) {
 		}, false)
 		cr.slow = false
 		s.Count(fmt.Sprintf("cli:long_set_records>=%d", n/100*100))
+	}
+	// dedicated sets, every run: two or three runs of a same-named attack, the sequence numbers restarting at 0
+	// in each — (attack name, seq) does not identify a record. Splits: one run per file (colliding pairs in
+	// different files), all runs in one file next to a control file, and interleaved.
+	for k := 0; k < 2; k++ {
+		runs := 2 + k
+		per := 4 + r.Pick(5)
+		name := r.PickStr([]string{"load", "attack-1", "nightly run"})
+		var set []gen.ResultSpec
+		byRun := make([][]int, runs)
+		for a := 0; a < runs; a++ {
+			for q := 0; q < per+a; q++ {
+				sp := gen.InterResult(r, uint64(q), -1)
+				sp.Attack = name
+				sp.URL = fmt.Sprintf("http://h/%d/%d", a, q) // what tells the records apart
+				byRun[a] = append(byRun[a], len(set))
+				set = append(set, sp)
+			}
+		}
+		other := gen.InterResult(r, 0, -1)
+		other.Attack, other.URL = "another attack", "http://h/other"
+		set = append(set, other)
+		ctl := []int{len(set) - 1}
+		var all, inter0, inter1 []int
+		for a := range byRun {
+			all = append(all, byRun[a]...)
+			for j, i := range byRun[a] {
+				if (j+a)%2 == 0 {
+					inter0 = append(inter0, i)
+				} else {
+					inter1 = append(inter1, i)
+				}
+			}
+		}
+		perFile := append(append([][]int{}, byRun...), ctl)
+		cr.runSet(set, [][][]int{perFile, {all, ctl}, {inter0, append(inter1, ctl...)}}, func(k int) [][]string {
+			all := allAssignments(k)
+			r.Shuffle(len(all), func(x, y int) { all[x], all[y] = all[y], all[x] })
+			return all[:min(len(all), 6)]
+		}, true)
+		s.Count(fmt.Sprintf("cli:set_with_%d_runs_of_a_same_named_attack(seq restarts)", runs))
 	}
 	// dedicated sets, every run: every result carries the same header keys with 2–3 values each; the first
 	// values come from a tiny pool (neighbouring results often agree in all of them), the later values are
